@@ -12,6 +12,15 @@ type Thunk struct {
 	Label string // operation class, used in signatures
 	Desc  string // the concrete case, for the replay file
 	F     func() string
+	// Group (0 = none): thunks of the same group work on the same shared objects (one proof
+	// list, one policy, one key); the focused concurrent rounds put several goroutines on one
+	// group at a time, so that calls that share state really overlap.
+	Group int
+	// Check (optional): an oracle for the outcome itself (a reference model's verdict). It
+	// returns "" when the outcome is acceptable and the complaint otherwise; it is applied to
+	// every observed outcome - baseline, repeated and concurrent - so a first call that is
+	// already wrong (because of what ran before it) does not become the reference.
+	Check func(out string) string
 }
 
 // Purity is the generic monitor for operations that the properties treat as functions of
@@ -21,13 +30,20 @@ type Thunk struct {
 // nor on what runs at the same time (pools, scratch buffers, lazily filled fields).
 //
 //  1. every thunk once, in order: the baseline;
-//  2. every thunk again in reverse order, then once more in a shuffled order: must equal the
-//     baseline (history independence);
+//  2. after a burst of unrelated traffic through the library (ChurnHook: several hundred never
+//     seen DIDs, patterns, selectors and commands, and a few failing calls), every thunk again
+//     in reverse order, then once more in a shuffled order: must equal the baseline (history
+//     independence);
 //  3. G goroutines run shuffled selections of the thunks at the same time, `rounds` times:
 //     every outcome must equal the baseline (and, in the -race build, the race detector
-//     watches the library's internals meanwhile).
+//     watches the library's internals meanwhile). Every other round is focused: a handful of
+//     groups is drawn and four goroutines at a time call only the thunks of one group.
 //
 // A panic inside a thunk is rendered as an outcome, so it is compared like any other.
+// ChurnHook, when set, is called between the baseline and the repeated passes: unrelated
+// traffic through the library that must not change any outcome.
+var ChurnHook func()
+
 func (w *W) Purity(class string, thunks []Thunk, G, rounds int) {
 	if len(thunks) == 0 {
 		return
@@ -38,12 +54,36 @@ func (w *W) Purity(class string, thunks []Thunk, G, rounds int) {
 		}
 		return out
 	}
+	checked := func(kind string, i int, got string, extra map[string]any) {
+		if thunks[i].Check == nil {
+			return
+		}
+		if why := thunks[i].Check(got); why != "" {
+			m := map[string]any{"operation": thunks[i].Label, "case": thunks[i].Desc, "outcome": Trunc(got, 600), "model": why, "pass": kind, "race_build": w.Race}
+			for k, v := range extra {
+				m[k] = v
+			}
+			w.Violate(fmt.Sprintf("purity/model-differs/%s/%s/%s", class, thunks[i].Label, kind),
+				fmt.Sprintf("%s [%s]: outcome %q, but %s (%s pass)", thunks[i].Label, Trunc(thunks[i].Desc, 200), Trunc(got, 200), why, kind), m)
+		}
+	}
 	base := make([]string, len(thunks))
 	for i := range thunks {
 		base[i] = run(i)
+		checked("first", i, base[i], nil)
 		w.Eval(1)
 	}
 	w.Cover("purity/" + class)
+	groups := map[int][]int{}
+	var groupIDs []int
+	for i := range thunks {
+		if g := thunks[i].Group; g != 0 {
+			if len(groups[g]) == 0 {
+				groupIDs = append(groupIDs, g)
+			}
+			groups[g] = append(groups[g], i)
+		}
+	}
 	report := func(kind string, i int, got string, extra map[string]any) {
 		m := map[string]any{"operation": thunks[i].Label, "case": thunks[i].Desc, "baseline_outcome": Trunc(base[i], 600), "outcome": Trunc(got, 600), "race_build": w.Race}
 		for k, v := range extra {
@@ -53,10 +93,15 @@ func (w *W) Purity(class string, thunks []Thunk, G, rounds int) {
 			fmt.Sprintf("%s [%s]: the same call gives %q first and %q %s", thunks[i].Label, Trunc(thunks[i].Desc, 200), Trunc(base[i], 200), Trunc(got, 200),
 				map[string]string{"order-dependent": "when repeated after other calls (same process, same objects)", "concurrent-differs": "while other goroutines use the library"}[kind]), m)
 	}
+	if ChurnHook != nil {
+		ChurnHook()
+		w.Cover("purity/" + class + "/churn-between-passes")
+	}
 	// 2. history independence
 	for i := len(thunks) - 1; i >= 0; i-- {
 		if got := run(i); got != base[i] {
 			report("order-dependent", i, got, map[string]any{"pass": "reverse order"})
+			checked("reverse", i, got, nil)
 		}
 		w.Eval(1)
 	}
@@ -64,6 +109,7 @@ func (w *W) Purity(class string, thunks []Thunk, G, rounds int) {
 	for _, i := range perm {
 		if got := run(i); got != base[i] {
 			report("order-dependent", i, got, map[string]any{"pass": "shuffled order"})
+			checked("shuffled", i, got, nil)
 		}
 		w.Eval(1)
 	}
@@ -81,6 +127,15 @@ func (w *W) Purity(class string, thunks []Thunk, G, rounds int) {
 		if per > 400 {
 			per = 400
 		}
+		// focused rounds: G/4 groups drawn, four goroutines on each, several passes over the
+		// group's thunks in private random orders
+		focused := round%2 == 1 && len(groupIDs) > 0
+		var drawn []int
+		if focused {
+			for k := 0; k < (G+3)/4; k++ {
+				drawn = append(drawn, groupIDs[w.Rng.IntN(len(groupIDs))])
+			}
+		}
 		for g := 0; g < G; g++ {
 			g := g
 			lr := rand.New(rand.NewPCG(uint64(w.Seed)*7919+uint64(round), uint64(g)*104729+uint64(w.Shard)))
@@ -88,10 +143,27 @@ func (w *W) Purity(class string, thunks []Thunk, G, rounds int) {
 			go func() {
 				defer wg.Done()
 				<-start
+				if focused {
+					mine := groups[drawn[(g/4)%len(drawn)]]
+					for k := 0; k < 8*len(mine) && k < per; k++ {
+						i := mine[lr.IntN(len(mine))]
+						res[g] = append(res[g], obs{i, run(i)})
+					}
+					return
+				}
 				for k := 0; k < per; k++ {
 					i := lr.IntN(len(thunks))
 					res[g] = append(res[g], obs{i, run(i)})
 				}
+			}()
+		}
+		if ChurnHook != nil && round%3 == 2 {
+			// unrelated traffic at the same time
+			wg.Add(1)
+			go func() {
+				defer wg.Done()
+				<-start
+				ChurnHook()
 			}()
 		}
 		close(start)
@@ -100,11 +172,16 @@ func (w *W) Purity(class string, thunks []Thunk, G, rounds int) {
 			for _, o := range res[g] {
 				w.Eval(1)
 				if o.out != base[o.i] {
-					report("concurrent-differs", o.i, o.out, map[string]any{"goroutines": G, "round": round})
+					report("concurrent-differs", o.i, o.out, map[string]any{"goroutines": G, "round": round, "focused_round": focused})
+					checked("concurrent", o.i, o.out, map[string]any{"goroutines": G, "round": round})
 				}
 			}
 		}
 	}
 	w.Cover("purity/" + class + "/concurrent")
+	if len(groupIDs) > 0 && rounds >= 2 {
+		w.Cover("purity/" + class + "/concurrent-focused")
+		w.Count("purity/groups/"+class, int64(len(groupIDs)))
+	}
 	w.Count("purity/thunks/"+class, int64(len(thunks)))
 }
